@@ -24,6 +24,11 @@ function run(bytes, which) {
   return { inst: 'ok', log, trace, fin: fin.join(' '), imports: WebAssembly.Module.imports(mod).filter(d => d.kind === 'function').map(d => d.module + '.' + d.name) };
 }
 const a = run(A, 'in'), b = run(B, 'out');
+// stack exhaustion happens at an implementation-defined depth (frame sizes differ between the binaries): the comparison stops at
+// the first call that exhausts the stack in either binary and the final state is then not compared
+let cut = -1;
+for (let i = 0; i < Math.max(a.log.length, b.log.length); i++) if ((a.log[i] && a.log[i].r === 'exhaustion') || (b.log[i] && b.log[i].r === 'exhaustion')) { cut = i; break; }
+if (cut >= 0) { a.log.length = Math.min(a.log.length, cut); b.log.length = Math.min(b.log.length, cut); a.fin = b.fin = ''; }
 const mism = [];
 if (a.inst !== b.inst) mism.push(`instantiation: original ${a.inst} / edited ${b.inst}`);
 if (plan.kind === 1) {
@@ -41,4 +46,4 @@ if (plan.kind === 1) {
   }
   if (!diverged && a.fin !== b.fin) mism.push(`final state: original \`${a.fin}\` / edited \`${b.fin}\``);
 }
-console.log(JSON.stringify({ id, name: plan.name, kind: plan.kind, verdict: mism.length ? 'differs' : 'same', mismatches: mism, calls: a.log.length, replaced_calls: a.log.filter(l => l.f === plan.replaced_export).length }));
+console.log(JSON.stringify({ id, name: plan.name, kind: plan.kind, verdict: mism.length ? 'differs' : 'same', mismatches: mism, calls: a.log.length, replaced_calls: a.log.filter(l => l.f === plan.replaced_export).length, cut_at_exhaustion: cut }));
